@@ -42,7 +42,7 @@ def mutated : Call → List (Mutation × Target)
   | .copy _ dst => [(.copy, dst)]
   | .complete t => [(.completeMultipart, t)]
   | .delete t m => [(if m then .deleteMarkerCreated else .delete, t)]
-  | .deleteObjects b ks => ks.map fun k => (if k.2 then .deleteMarkerCreated else .delete, { bucket := b, key := k.1 })
+  | .deleteObjects b ks _ => ks.map fun k => (if k.2 then .deleteMarkerCreated else .delete, { bucket := b, key := k.1 })   -- refused entries mutate nothing
   | .tagPut t => [(.taggingPut, t)]
   | .tagDel t => [(.taggingDelete, t)]
   | .append t => [(.append, t)]
